@@ -478,6 +478,19 @@ type c07Party struct {
 	calls   *[]c07VerifyCall
 	buf     []byte // reusable receive buffer
 	signers []c07SignerSpec
+	busy    bool
+}
+
+// c07BusySigner is a signer during whose Sign call something else happens (Signer.Sign is the caller's
+// code: whatever another goroutine of the caller does at that moment can be placed there).
+type c07BusySigner struct {
+	note.Signer
+	meanwhile func()
+}
+
+func (s c07BusySigner) Sign(msg []byte) ([]byte, error) {
+	s.meanwhile()
+	return s.Signer.Sign(msg)
 }
 
 func c07NewParty(src *choice.Src, res *core.Result, hint []*ref.Key) *c07Party {
@@ -553,6 +566,9 @@ func c07NewParty(src *choice.Src, res *core.Result, hint []*ref.Key) *c07Party {
 			p.signers = append(p.signers, c07SignerSpec{fake: &fakeSigner{name: fmt.Sprintf("hsm.example/k%d", i), hash: uint32(40 + i), sig: src.Bytes(64), shared: &buf}})
 		}
 	}
+	// a busy signing service: it has just had a failed signing attempt, and another of its goroutines
+	// signs a note of its own while this one is inside its signer
+	p.busy = src.Bool(1, 4)
 	return p
 }
 
@@ -639,6 +655,24 @@ func (p *c07Party) sign(res *core.Result, who string, n *note.Note) []byte {
 			signers = append(signers, rs)
 		} else {
 			signers = append(signers, s.fake)
+		}
+	}
+	if p.busy && len(signers) > 0 {
+		if _, ferr := note.Sign(&note.Note{Text: "attempt\n"}, &fakeSigner{name: "broken.example/dev", hash: 1, err: errors.New("device unplugged")}); ferr == nil {
+			res.Fail("C07", "sign-rejects", "Sign succeeded where it must fail (invalid signer name, failing signer, or malformed existing signature)", "%s: the signer failed and Sign returned no error", who)
+			return nil
+		}
+		other, oerr := note.NewSigner(c07Keys[0].SignerText())
+		if oerr == nil {
+			on := &note.Note{Text: "signed meanwhile by another goroutine of " + who + "\n"}
+			owant, _ := c07SignReference(on, []c07SignerSpec{{key: c07Keys[0]}})
+			signers[0] = c07BusySigner{Signer: signers[0], meanwhile: func() {
+				ogot, err := note.Sign(on, other)
+				if err != nil || !bytes.Equal(ogot, owant) {
+					res.Fail("C07", "sign-output", "Sign output is not the documented encoding", "%s, a Sign call made while another Sign call is inside its signer: got %q, %v want %q", who, clip(string(ogot)), err, clip(string(owant)))
+				}
+			}}
+			res.Probes["sign-inside-sign"]++
 		}
 	}
 	want, mustFail := c07SignReference(n, p.signers)
